@@ -8,7 +8,7 @@ import ast
 import z3
 
 from . import pysym, ref
-from .pysym import Call, Ite, LD, LL, Ob, Tm, _const_key
+from .pysym import Call, Ite, LD, LL, Ob, Tm, _const_key, _short
 
 MUTATORS = {"pop", "popitem", "update", "setdefault", "clear", "append", "extend", "insert", "remove", "sort", "reverse",
             "add", "discard", "__setitem__", "__delitem__", "move_to_end", "appendleft", "popleft"}
@@ -280,3 +280,88 @@ def closedness_problems(record):
         else:
             check_scope([n], set(), "<module level>")
     return problems
+
+
+# ---------------------------------------------------------------------------------------------
+# one-shot codec functions (L-src): decode(data, T) = Decoder_F(T).decode(data), a fresh codec per call
+# ---------------------------------------------------------------------------------------------
+ONESHOT = {
+    "mashumaro/codecs/basic.py": [("decode", "BasicDecoder", "decode"), ("encode", "BasicEncoder", "encode")],
+    "mashumaro/codecs/json.py": [("json_decode", "JSONDecoder", "decode"), ("json_encode", "JSONEncoder", "encode")],
+    "mashumaro/codecs/orjson.py": [("json_decode", "ORJSONDecoder", "decode"), ("json_encode", "ORJSONEncoder", "encode")],
+    "mashumaro/codecs/yaml.py": [("yaml_decode", "YAMLDecoder", "decode"), ("yaml_encode", "YAMLEncoder", "encode")],
+    "mashumaro/codecs/msgpack.py": [("msgpack_decode", "MessagePackDecoder", "decode"), ("msgpack_encode", "MessagePackEncoder", "encode")],
+    "mashumaro/codecs/toml.py": [("toml_decode", "TOMLDecoder", "decode"), ("toml_encode", "TOMLEncoder", "encode")],
+}
+
+
+def verify_oneshot(pid):
+    """contract (from C15's statement): the one-shot function's result is
+    <Codec class of the module>(shape_type [, the function's own coder argument]).<method>(data),
+    i.e. a codec constructed for exactly the shape_type argument on every call - no state is
+    consulted, so the result cannot depend on earlier calls. Proved on the real AST for all arguments."""
+    import importlib
+
+    obs = []
+    for rel, fns in ONESHOT.items():
+        src = open("/repo/" + rel).read()
+        mod_ast = ast.parse(src)
+        m = importlib.import_module(rel[:-3].replace("/", "."))
+        for (fname, cname, meth) in fns:
+            oid = f"{pid}.S[{rel.split('/')[-1]}:{fname}]/fresh_codec"
+            fn = [n for n in mod_ast.body if isinstance(n, ast.FunctionDef) and n.name == fname]
+            if not fn:
+                obs.append(dict(id=oid, status="refuted", detail="function not found"))
+                continue
+            fn = fn[0]
+            eng = pysym.Engine()
+            ex = pysym.Executor(eng, dict(m.__dict__))
+            ex.assume_hasattr = True
+            params = [a.arg for a in fn.args.args]
+            args = {p: Tm(eng.fresh(p)) for p in params}
+            try:
+                paths = ex.run(fn, args)
+            except pysym.NotInSubset as e:
+                obs.append(dict(id=oid, status="undecided", detail=f"outside the verified subset: {e}"))
+                continue
+            cls = getattr(m, cname)
+            probs = []
+            data_p, shape_p = params[0], params[1]
+            for p in paths:
+                if p.kind != "return":
+                    continue
+                v = p.value
+                ok = False
+                if isinstance(v, Call) and v.key == ("meth", meth) and len(v.args) == 2 and isinstance(v.args[0], Tm) and isinstance(v.args[1], Tm):
+                    recv = v.args[0].t
+                    want_prefix = f"call!{_short(cls)}!{pysym._keystr(_const_key(cls))}!"
+                    if (z3.is_app(recv) and recv.decl().name().startswith(want_prefix) and recv.num_args() >= 1
+                            and z3.eq(recv.arg(0), args[shape_p].t) and z3.eq(v.args[1].t, args[data_p].t)
+                            and all(any(z3.eq(recv.arg(i), a.t) for a in args.values()) for i in range(recv.num_args()))):
+                        ok = True
+                if not ok:
+                    probs.append(f"result {v!r} is not {cname}({shape_p}).{meth}({data_p})")
+            if not any(p.kind == "return" for p in paths):
+                probs.append("no returning path")
+            obs.append(dict(id=oid, status="proved" if not probs else "refuted", unit=f"{rel}:{fname}", paths=len(paths), detail="; ".join(sorted(set(probs)))[:400],
+                            witness=(_oneshot_witness() if probs else None)))
+    return obs
+
+
+def _oneshot_witness():
+    """replay: a one-shot call must agree with a freshly built codec whatever was called before"""
+    import datetime
+    import typing
+
+    from mashumaro.codecs import basic
+
+    try:
+        a = basic.decode("2020-01-02", typing.Union[datetime.date, str])
+        b = basic.decode("2020-01-02", typing.Union[str, datetime.date])
+        fresh = basic.BasicDecoder(typing.Union[str, datetime.date]).decode("2020-01-02")
+        if b != fresh or type(b) is not type(fresh):
+            return {"confirmed": True, "input": "decode('2020-01-02', Union[date, str]) then decode('2020-01-02', Union[str, date])",
+                    "why": f"second one-shot call returned {b!r}, a fresh BasicDecoder(Union[str, date]) returns {fresh!r}"}
+    except Exception as e:  # noqa
+        return {"confirmed": False, "why": f"replay raised {type(e).__name__}: {e}"}
+    return None
